@@ -49,6 +49,7 @@ func rulesC13(p *Prog, r *Report) {
 	}
 
 	// analysed set: R plus package initialisers (for P1 classification of writes)
+	onceWritten := map[*ssa.Global]bool{}
 	globalsWrittenOutsideInit := map[*ssa.Global][]ssa.Instruction{}
 	globalsElemWritten := map[*ssa.Global][]ssa.Instruction{}
 	var allFuncs []*ssa.Function
@@ -75,9 +76,15 @@ func rulesC13(p *Prog, r *Report) {
 						continue
 					}
 					if st, ok := in.(*ssa.Store); ok && st.Addr == g {
-						if !isInit(f) {
+						if !isInit(f) && !inOnceClosure(f) {
 							globalsWrittenOutsideInit[g] = append(globalsWrittenOutsideInit[g], in)
+						} else if inOnceClosure(f) {
+							onceWritten[g] = true
 						}
+						continue
+					}
+					// a package-level sync.Once used as the receiver of Do is the publication guard itself
+					if isOnceType(g.Type().Underlying().(*types.Pointer).Elem()) {
 						continue
 					}
 					if ld, ok := in.(*ssa.UnOp); ok && ld.Op == token.MUL {
@@ -144,8 +151,20 @@ func rulesC13(p *Prog, r *Report) {
 						continue
 					}
 					if st, ok := in.(*ssa.Store); ok && st.Addr == g {
+						if inOnceClosure(f) {
+							continue // published exactly once under sync.Once; readers are checked for a dominating Do
+						}
 						p1 = append(p1, fmt.Sprintf("%s: writes package-level variable %s (state that survives the call: history dependence and a data race under concurrent calls)", p.pos(in.Pos()), g.Name()))
 						continue
+					}
+					if isOnceType(g.Type().Underlying().(*types.Pointer).Elem()) {
+						continue
+					}
+					if onceWritten[g] && !inOnceClosure(f) {
+						if !dominatedByOnceDo(f, in) {
+							p1 = append(p1, fmt.Sprintf("%s: reads %s, which is published by a sync.Once, without a dominating Do call", p.pos(in.Pos()), g.Name()))
+						}
+						// published once, then immutable: fall through to the shared-reference checks
 					}
 					if w := globalsWrittenOutsideInit[g]; len(w) > 0 {
 						p1 = append(p1, fmt.Sprintf("%s: reads package-level variable %s, which is written outside initialisation at %s", p.pos(in.Pos()), g.Name(), p.pos(w[0].Pos())))
@@ -686,4 +705,61 @@ func (fr *freshness) callFresh(c *ssa.Call, idx int, seen map[ssa.Value]bool) st
 		}
 	}
 	return ""
+}
+
+func isOnceType(t types.Type) bool {
+	n, ok := t.(*types.Named)
+	return ok && n.Obj().Pkg() != nil && n.Obj().Pkg().Path() == "sync" && n.Obj().Name() == "Once"
+}
+
+// inOnceClosure: f is a closure passed directly to (*sync.Once).Do.
+func inOnceClosure(f *ssa.Function) bool {
+	par := f.Parent()
+	if par == nil {
+		return false
+	}
+	for _, b := range par.Blocks {
+		for _, in := range b.Instrs {
+			c, ok := in.(*ssa.Call)
+			if !ok || c.Call.StaticCallee() == nil || c.Call.StaticCallee().String() != "(*sync.Once).Do" {
+				continue
+			}
+			switch a := c.Call.Args[1].(type) {
+			case *ssa.MakeClosure:
+				if a.Fn == f {
+					return true
+				}
+			case *ssa.Function:
+				if a == f {
+					return true
+				}
+			}
+		}
+	}
+	return false
+}
+
+// dominatedByOnceDo: some (*sync.Once).Do call on a package-level Once dominates instruction in.
+func dominatedByOnceDo(f *ssa.Function, in ssa.Instruction) bool {
+	for _, b := range f.Blocks {
+		for i, x := range b.Instrs {
+			c, ok := x.(*ssa.Call)
+			if !ok || c.Call.StaticCallee() == nil || c.Call.StaticCallee().String() != "(*sync.Once).Do" {
+				continue
+			}
+			if _, isG := c.Call.Args[0].(*ssa.Global); !isG {
+				continue
+			}
+			if b == in.Block() {
+				for j, y := range b.Instrs {
+					if y == in && i < j {
+						return true
+					}
+				}
+			} else if b.Dominates(in.Block()) {
+				return true
+			}
+		}
+	}
+	return false
 }
